@@ -70,6 +70,8 @@ type Options struct {
 	Store func(i int, id *m.Address, s *config.Store)
 	// LabelFn overrides the label generator (uniqueness per node is still enforced).
 	LabelFn func(tp *core.Tape) m.SwitchLabel
+	// Idents, if set, fixes the identity of node i (len >= node count).
+	Idents []*m.Address
 	// IdentKind selects the identity range.
 	IdentKind ident.Kind
 }
@@ -213,6 +215,9 @@ func Build(e *core.Env, o Options) *Mesh {
 	idPerm := tp.Perm(24)
 	for i := 0; i < n; i++ {
 		id := ident.Get(o.IdentKind, idPerm[i%24]+24*(i/24))
+		if i < len(o.Idents) {
+			id = o.Idents[i]
+		}
 		st := node.BaseStore(id)
 		if o.BigInfo && tp.Chance(1, 3) {
 			k := 1 + tp.Intn(4)
